@@ -55,6 +55,7 @@ type World struct {
 	nextDisk int
 	allocRep map[Loc]*allocRep
 	releasedSinceBegin bool
+	lastClock          *Term
 	accessCount        uint64
 	watchRules         map[string]*watchRule
 }
@@ -539,6 +540,15 @@ func envStubs(m map[string]stubFn) {
 	// --- time
 	m["time.Now"] = func(e *Engine, fn *ssa.Function, a []Value) Value {
 		return zeroValue(fn.Signature.Results().At(0).Type())
+	}
+	m["(time.Time).UnixNano"] = func(e *Engine, fn *ssa.Function, a []Value) Value {
+		// clock contract: successive readings are distinct and increasing
+		t := e.freshVar("clock", BV(64))
+		if e.world.lastClock != nil {
+			e.Assume(Cmp("bvult", e.world.lastClock, t))
+		}
+		e.world.lastClock = t
+		return t
 	}
 	m["(time.Time).Sub"] = func(e *Engine, fn *ssa.Function, a []Value) Value { return c64(0) }
 	m["time.Since"] = func(e *Engine, fn *ssa.Function, a []Value) Value { return c64(0) }
